@@ -61,8 +61,17 @@ BYNAME = {s['name']: s for s in SPECS}
 
 @st.composite
 def op(draw):
-    kind = draw(st.sampled_from(['read', 'read', 'write', 'write', 'multi', 'bigread', 'bigwrite', 'oob', 'unknown',
-                                 'raw_read', 'raw_write', 'conn_read', 'conn_write']))
+    kind = draw(st.sampled_from(['read', 'read', 'write', 'write', 'multi', 'bigread', 'bigwrite', 'oob', 'unknown', 'unknown',
+                                 'raw_read', 'raw_write', 'conn_read', 'conn_write', 'conn_read', 'abrupt', 'raw_oob', 'conn_oob']))
+    if kind == 'abrupt':
+        return {'kind': kind}
+    if kind in ('raw_oob', 'conn_oob'):
+        s = draw(st.sampled_from([x for x in SPECS if x['name'] != 'Big']))
+        L = s['length']
+        e = draw(st.sampled_from([L, L + 1, 1000] + ([L - 1] if L > 1 else [])))
+        n = 2 if e == L - 1 else draw(st.sampled_from([1, 2]))
+        return {'kind': kind, 'tag': s['name'], 'elem': e, 'count': n, 'write': draw(st.booleans()), 'frag': draw(st.booleans()),
+                'values': draw(st.lists(tagcheck.value_of(s['type']), min_size=n, max_size=n))}
     if kind in ('bigread', 'bigwrite'):
         n = draw(st.sampled_from([121, 122, 123, 124, 200, 244, 366, 488, 490, 610, 700]))     # incl. whole multiples of one reply (122 DINTs)
         start = draw(st.integers(0, 700 - n))
@@ -103,6 +112,7 @@ def op(draw):
 @st.composite
 def cases(draw, k):
     return {'connection_size': draw(st.sampled_from([None, 500, 4000])),
+            'seq0': draw(st.sampled_from([0, 0, 0x7FFD, 0x7FFE, 0x7FFF, 0xFFFD, 0xFFFE, 0x8000])),
             'ops': draw(st.lists(op(), min_size=1, max_size=k))}
 
 
@@ -110,9 +120,9 @@ def cases(draw, k):
 
 
 class Connected(object):
-    def __init__(self, server, large=False):
+    def __init__(self, server, large=False, seq0=0):
         self.s = sim.TcpSession(server)
-        self.seq = 0
+        self.seq = seq0 & 0xFFFF          # the 16-bit sequence count starts anywhere and wraps
         fo = {'priority': 0x0A, 'timeout_ticks': 0x0E, 'O_T_connection_ID': 0x20000002, 'T_O_connection_ID': 0x20000001,
               'connection_serial': 0x1234, 'O_vendor': 0x1337, 'O_serial': 42, 'connection_timeout_multiplier': 3,
               'O_T_RPI': 0x00201234, 'O_T_NCP': (0x42000000 | 4000) if large else (0x4200 | 500), 'T_O_RPI': 0x00204001,
@@ -129,7 +139,10 @@ class Connected(object):
         self.seq = (self.seq + 1) & 0xFFFF
         ctx = self.s.context()
         frame = rc.encap(rc.CMD['send_unit_data'], self.s.handle, rc.send_unit_data(self.conn_id, self.seq, message), ctx)
-        self.s.sock.sendall(frame)
+        try:
+            self.s.sock.sendall(frame)
+        except (BrokenPipeError, ConnectionResetError):
+            return None         # the simulator has ended this session (after an earlier failure)
         frames, left, eof = sim.recv_frames(self.s.sock, 1, 5.0)
         if not frames:
             if eof:
@@ -260,6 +273,45 @@ def pred(case, stats):
                          'error status (CIP 0xFF), no value')
                 elif '255' not in r.Status:
                     fail('pylogix-out-of-range-status', {'step': step, 'op': o, 'status': r.Status}, 'CIP status 0xFF (255)')
+            elif k == 'abrupt':
+                # another connected session of the same host that ends without Forward Close / Unregister (a crashed client)
+                try:
+                    other = Connected(server, large=False, seq0=case.get('seq0', 0))
+                    other.send(rc.req_read_tag([{'symbolic': 'A'}], 1))
+                    other.s.sock.close()
+                except rc.RefDecodeError as exc:
+                    fail('raw-reply-rejected-by-reference-decoder', {'step': step, 'op': o, 'error': str(exc)}, 'Forward Open and a read on a second session')
+                time.sleep(0.05)
+            elif k in ('raw_oob', 'conn_oob'):
+                s = BYNAME[o['tag']]
+                path = [{'symbolic': o['tag']}, {'element': o['elem']}]
+                if o['write']:
+                    msg = (rc.req_write_frag(path, s['type'], o['values'], o['count'], 0) if o['frag'] else rc.req_write_tag(path, s['type'], o['values']))
+                else:
+                    msg = rc.req_read_frag(path, o['count'], 0) if o['frag'] else rc.req_read_tag(path, o['count'])
+                try:
+                    if k == 'raw_oob':
+                        if raw is None:
+                            raw = sim.TcpSession(server)
+                        out = raw.send(msg, wrap=True)
+                        if out['kind'] == 'timeout':
+                            raise common.HarnessError('timeout on raw request')
+                        rpy = out['reply']
+                    else:
+                        if conn is None:
+                            conn = Connected(server, large=bool(case['connection_size'] and case['connection_size'] > 511), seq0=case.get('seq0', 0))
+                        rpy = conn.send(msg)
+                except rc.RefDecodeError as exc:
+                    fail('raw-reply-rejected-by-reference-decoder', {'step': step, 'op': o, 'error': str(exc)}, 'a reply the strict reference decoder accepts')
+                    continue
+                if rpy is None:
+                    fail('raw-request-without-cip-reply', {'step': step, 'op': o}, 'a CIP reply with status 0xFF / 0x2105')
+                    raw = None if k == 'raw_oob' else raw
+                    continue
+                if rpy['service'] != (msg[0] | 0x80) or rpy['status'] != 0xFF or list(rpy['ext']) != [0x2105]:
+                    fail('raw-out-of-range-status', {'step': step, 'op': o, 'reply': M._r(rpy)},
+                         {'service': msg[0] | 0x80, 'status': 0xFF, 'extended': [0x2105]})
+                classes.add('raw-out-of-range-' + ('write' if o['write'] else 'read'))
             elif k == 'unknown':
                 r = plc.Read(o['tag'])
                 if r.Status == 'Success' or r.Value is not None:
@@ -283,7 +335,7 @@ def pred(case, stats):
                         rpy = out['reply']
                     else:
                         if conn is None:
-                            conn = Connected(server, large=bool(case['connection_size'] and case['connection_size'] > 511))
+                            conn = Connected(server, large=bool(case['connection_size'] and case['connection_size'] > 511), seq0=case.get('seq0', 0))
                         rpy = conn.send(msg)
                 except rc.RefDecodeError as exc:
                     fail('raw-reply-rejected-by-reference-decoder', {'step': step, 'op': o, 'error': str(exc)},
@@ -338,6 +390,20 @@ def pred(case, stats):
                 fail('forward-open-entry-survives-close', {'peer': list(peer), 'entries': [list(map(str, kk)) for kk in left]},
                      'the Connection Manager forgets the connection after Forward Close / session end')
         stats.case(case, nontrivial=nontrivial, classes=sorted(classes) + ['connsize:%s' % case['connection_size']])
+    except common.HarnessError:
+        raise
+    except Exception as exc:
+        import socket as _socket
+        import traceback as _tb
+        frames = _tb.extract_tb(exc.__traceback__)
+        if isinstance(exc, (_socket.timeout, TimeoutError)) or not any('/pylogix/' in f.filename for f in frames):
+            raise
+        # the independent client itself blew up on what the simulator sent (e.g. a bare 24-byte encapsulation error where
+        # a connected CIP reply belongs): that is a failure to interoperate, not a harness problem
+        stats.case(case, nontrivial=nontrivial, classes=sorted(classes) + ['pylogix-raised'])
+        where = [f for f in frames if '/pylogix/' in f.filename][-1]
+        fail('pylogix-client-raised:%s@%s' % (type(exc).__name__, where.name), {'error': str(exc)[:200], 'ops': [x['kind'] for x in case['ops']]},
+             'every documented operation returns a Response (Success or an error status)')
     finally:
         try:
             plc.Close()
